@@ -475,6 +475,27 @@ def build(construct: str, mag: int, pos: str, rng) -> dict:
             data = c12_sevenz.write_7z([("big.txt", body)], method="lzma2")
             usize = len(data) + (mag if pos == "admitted" else 0)
         return {"ext": "7z", "data": data, "usize": usize, "note": note}
+    # ---- 7z: what the header declares vs what the packed stream yields.  pos = "<coder>.<declared>.<end>"
+    #      declared: zero | smaller (16 bytes) | larger (8 MiB declared, 1 KiB in the stream) | firstbig (coder chain:
+    #      the BCJ coder declares mag, the compressor and the member 16 bytes);  mag = bytes the stream really yields
+    if c == "sevenz_declared":
+        coder, decl, end = pos.split(".")
+        actual = 1024 if decl == "larger" else mag
+        body = bytes(actual)
+        chain = coder.startswith("bcj+")
+        if decl == "zero":
+            sizes = [0, 0] if chain else [0]
+        elif decl == "smaller":
+            sizes = [16, 16] if chain else [16]
+        elif decl == "larger":
+            sizes = [8 << 20, 8 << 20] if chain else [8 << 20]
+        elif decl == "firstbig":
+            sizes = [mag, 16]
+        else:
+            raise ValueError(decl)
+        data = c12_sevenz.write_7z_declared("big.txt", body, coder, sizes[-1], sizes, strip_end=(end == "noend"))
+        # input size = the file + what the guards admit (the member's declared size)
+        return {"ext": "7z", "data": data, "usize": len(data) + min(sizes[-1], actual), "note": note}
     if c == "targz_ratio":
         # pos: "skipped" member (size mag > limit) | "admitted" (mag <= limit)
         buf = io.BytesIO()
